@@ -373,3 +373,18 @@ func VerifC08TypeName(t int) string {
 	}
 	return ""
 }
+
+// VerifC08EphemeralTargets returns, for an ephemeral public key message, the
+// member indexes it carries a key for: every member of the group the protocol
+// was started for, except the sender.
+func VerifC08EphemeralTargets(m interface{}) (sender int, session string, targets []int, ok bool) {
+	e, isEph := m.(*ephemeralPublicKeyMessage)
+	if !isEph {
+		return 0, "", nil, false
+	}
+	for k := range e.ephemeralPublicKeys {
+		targets = append(targets, int(k))
+	}
+	sort.Ints(targets)
+	return int(e.senderID), e.sessionID, targets, true
+}
